@@ -1,0 +1,35 @@
+//go:build verif
+
+// Contracts (machine-checked by /verif/engine, see /verif/DESIGN.md). Comment-only file:
+// with the build tag off it does not exist, with it on it adds no code.
+package auth
+
+//@ func twosComplement
+//@   props C09
+//@   requires len(p) == 20
+//@   loop 1: unroll 20
+//@   ensures [same-slice] len(result) == 20 && result == p
+//@   ensures [negation] be(result, 20) == -old(be(p, 20))
+
+// The digest closure: SHA-1 over the shared secret followed by the public key, nothing else.
+//@ func (*authenticator).GenerateServerID$1
+//@   props C09
+//@   at-call sha1.New as h
+//@   at-call Write#1 as w1: assert arg0 == res(h) && arg1 == decryptedSharedSecret
+//@   at-call Write#2 as w2: assert arg0 == res(h) && arg1 == a.public && called(w1)
+//@   at-call Sum as sum: assert arg0 == res(h) && isnil(arg1) && called(w2)
+//@   ensures [digest-returned] err == nil ==> called(sum) && hash == res(sum)
+//@   ensures [digest-20-bytes] err == nil ==> len(hash) == 20
+
+// Java's BigInteger(digest).toString(16): sign from the top bit, magnitude by two's complement
+// (twosComplement above), lowercase hex without leading zeros, '-' first.
+//@ func (*authenticator).GenerateServerID
+//@   props C09
+//@   at-call GenerateServerID$1 as digest
+//@   at-call twosComplement as neg: assert arg0 == res(digest, 0) && (arg0[0] & 0x80) == 0x80
+//@   at-call WriteRune as minus: assert arg1 == 45 && called(neg)
+//@   at-call EncodeToString as enc: assert arg0 == res(digest, 0) && (called(neg) || (arg0[0] & 0x80) != 0x80)
+//@   at-call TrimLeft as trim: assert streq(arg0, res(enc)) && streq(arg1, "0") && (called(neg) ==> called(minus))
+//@   at-call WriteString as ws: assert streq(arg1, res(trim)) && arg0 == arg(minus, 0)
+//@   at-call String as str: assert called(ws) && arg0 == arg(ws, 0)
+//@   ensures [result-is-builder] result.1 == nil ==> called(str) && streq(result.0, res(str))
